@@ -25,6 +25,8 @@ import (
 	"strconv"
 	"strings"
 	"sync"
+	"sync/atomic"
+	"syscall"
 	"time"
 )
 
@@ -53,6 +55,52 @@ type Result struct {
 	Viols       []Viol         `json:"viols,omitempty"`
 	WallMs      int64          `json:"wall_ms"`
 	Crashed     bool           `json:"crashed,omitempty"`
+	Hung        bool           `json:"hung,omitempty"` // written by the worker's watchdog; the worker process has ended
+}
+
+// Tick is called by the drivers whenever an evaluation (one execution, one tree, one program, one transition) has
+// completed. The worker's watchdog looks at processor time, never at the clock: if the process burns more than
+// hangCPU seconds of CPU while not a single evaluation completes, a call into the code under test is not
+// returning (on the unchanged tree an evaluation takes micro- to milliseconds). That is a statement about the
+// amount of computation, independent of how loaded the machine is.
+func Tick() { beat.Add(1) }
+
+var (
+	beat     atomic.Int64
+	curCase  atomic.Value // string
+	curIndex atomic.Int64
+)
+
+const hangCPU = 120 * time.Second
+
+func cpuTime() time.Duration {
+	var ru syscall.Rusage
+	if syscall.Getrusage(syscall.RUSAGE_SELF, &ru) != nil {
+		return 0
+	}
+	return time.Duration(ru.Utime.Nano() + ru.Stime.Nano())
+}
+
+func watchdog(p *Property, out *bufio.Writer, mu *sync.Mutex) {
+	last, at := beat.Load(), cpuTime()
+	for {
+		time.Sleep(500 * time.Millisecond)
+		b, c := beat.Load(), cpuTime()
+		if b != last {
+			last, at = b, c
+			continue
+		}
+		if c-at < hangCPU {
+			continue
+		}
+		name, _ := curCase.Load().(string)
+		r := Result{Index: int(curIndex.Load()), Case: name, Hung: true, Exhaustive: false,
+			Viols: []Viol{{Sig: p.ID + "/nontermination", Msg: fmt.Sprintf("a call into the code under test does not return: the process has used %d s of processor time without completing a single evaluation (an evaluation normally takes micro- to milliseconds); case %s", int(hangCPU.Seconds()), name), Replay: map[string]any{"case": name}}}}
+		mu.Lock()
+		json.NewEncoder(out).Encode(r)
+		out.Flush()
+		os.Exit(0)
+	}
 }
 
 // Property describes one check.
@@ -200,17 +248,27 @@ func runWorker(p *Property, tier string, budget time.Duration) {
 	in := bufio.NewScanner(os.Stdin)
 	out := bufio.NewWriter(os.Stdout)
 	enc := json.NewEncoder(out)
+	var omu sync.Mutex
+	_, name := p.Cases(tier)
+	curCase.Store("")
+	go watchdog(p, out, &omu)
 	for in.Scan() {
 		i, err := strconv.Atoi(strings.TrimSpace(in.Text()))
 		if err != nil {
 			continue
 		}
 		t0 := time.Now()
+		curCase.Store(name(i))
+		curIndex.Store(int64(i))
+		Tick()
 		r := runCase(p, tier, i, t0.Add(budget))
+		Tick()
 		r.Index = i
 		r.WallMs = time.Since(t0).Milliseconds()
+		omu.Lock()
 		enc.Encode(r)
 		out.Flush()
+		omu.Unlock()
 	}
 }
 
@@ -253,11 +311,14 @@ func master(p *Property, tier string, n int, name func(int) string, only string,
 		results []Result
 		wg      sync.WaitGroup
 		fatal   string
+		hung    int
 	)
 	take := func() (int, bool) {
 		mu.Lock()
 		defer mu.Unlock()
-		if next >= len(idx) || fatal != "" {
+		if next >= len(idx) || fatal != "" || hung >= 3 {
+			// three cases in which the code under test does not return are enough: every further one would cost
+			// another two minutes of processor time
 			return 0, false
 		}
 		next++
@@ -309,7 +370,17 @@ func master(p *Property, tier string, n int, name func(int) string, only string,
 					}
 					mu.Lock()
 					results = append(results, r)
+					if r.Hung {
+						hung++
+					}
 					mu.Unlock()
+					if r.Hung {
+						// the worker's watchdog reported a call that does not return and ended the process
+						stdin.Close()
+						cmd.Process.Kill()
+						cmd.Wait()
+						break
+					}
 					if crashed {
 						break
 					}
@@ -337,6 +408,10 @@ func master(p *Property, tier string, n int, name func(int) string, only string,
 	}
 	var incomplete []string
 	slowest := Result{}
+	if len(results) < len(idx) {
+		exhaustive = false
+		incomplete = append(incomplete, fmt.Sprintf("%d cases were not run after three cases in which the code under test did not return", len(idx)-len(results)))
+	}
 	for _, r := range results {
 		states += r.States
 		trans += r.Transitions
